@@ -1406,3 +1406,47 @@ Section History.
       eapply IH; eassumption.
   Qed.
 End History.
+
+(* ------------------------------------------------------------------ no other state: every step is judged on its own inputs *)
+Section HistorySteps.
+  Variable H : bytes -> bytes -> bytes.
+
+  Lemma run_history_length g epochs roots : forall evs cache, length (run_history H g epochs roots cache evs) = length evs.
+  Proof.
+    induction evs as [|ev rest IH]; intros cache; cbn [run_history length]; [reflexivity|].
+    destruct (validate_step H g epochs roots cache ev) as [v c']. cbn [length]. now rewrite IH.
+  Qed.
+
+  (* the verdict of call k of any history is ValidateHeaderAndProof of that call's own inputs over the cache of that moment:
+     nothing else a validator went through before (which headers it has already accepted, with which proofs) has any influence *)
+  Theorem history_step_verdict g epochs roots : forall evs cache k oracle n hash proof,
+    nth_error evs k = Some (oracle, n, hash, proof) ->
+    option_map fst (nth_error (run_history H g epochs roots cache evs) k) =
+    Some (validate_header_and_proof H g epochs roots (cache_before H g epochs roots cache evs k) oracle n hash proof).
+  Proof.
+    induction evs as [|ev rest IH]; intros cache k oracle n hash proof Hk; [destruct k; discriminate|].
+    cbn [run_history]. destruct k as [|k].
+    - cbn [nth_error] in Hk. inversion Hk; subst ev. cbn [cache_before].
+      rewrite <- validate_step_verdict. destruct (validate_step H g epochs roots cache _) as [v c']. reflexivity.
+    - cbn [nth_error] in Hk. cbn [cache_before].
+      destruct (validate_step H g epochs roots cache ev) as [v c']. cbn [snd nth_error]. apply IH. exact Hk.
+  Qed.
+
+  (* before Shanghai there is no state at all: the summaries cache (and the oracle) are never looked at *)
+  Theorem verdict_ignores_cache_before_shanghai g epochs roots cache1 oracle1 cache2 oracle2 n hash proof :
+    n < K_ShanghaiBlockNumber ->
+    validate_header_and_proof H g epochs roots cache1 oracle1 n hash proof =
+    validate_header_and_proof H g epochs roots cache2 oracle2 n hash proof.
+  Proof.
+    intros L. unfold validate_header_and_proof.
+    destruct (n <? K_MergeBlockNumber); [reflexivity|]. replace (n <? K_ShanghaiBlockNumber) with true by lia. reflexivity.
+  Qed.
+
+  (* ... and such a call leaves the cache alone *)
+  Theorem step_keeps_cache_before_shanghai g epochs roots cache oracle n hash proof :
+    n < K_ShanghaiBlockNumber -> snd (validate_step H g epochs roots cache (oracle, n, hash, proof)) = cache.
+  Proof.
+    intros L. unfold validate_step.
+    destruct (n <? K_MergeBlockNumber); [reflexivity|]. replace (n <? K_ShanghaiBlockNumber) with true by lia. reflexivity.
+  Qed.
+End HistorySteps.
